@@ -14,7 +14,7 @@ H(A, lbl) == A /\ hist' = Append(hist, lbl)
 HInit == Init /\ hist = <<>>
 HNext ==
     \/ \E c \in Callers :
-         \/ H(Start(c), <<"Start", c>>) \/ H(SendLock(c), <<"SendLock", c>>) \/ H(Transmit(c), <<"Transmit", c>>)
+         \/ H(Start(c), <<"Start", c>>) \/ H(Again(c), <<"Again", c>>) \/ H(SendLock(c), <<"SendLock", c>>) \/ H(Transmit(c), <<"Transmit", c>>) \/ H(TransmitFail(c), <<"TransmitFail", c>>)
          \/ H(WakeRecv(c), <<"WakeRecv", c>>) \/ H(WakeTimeout(c), <<"WakeTimeout", c>>) \/ H(WakeCtx(c), <<"WakeCtx", c>>)
          \/ H(WakeClosed(c), <<"WakeClosed", c>>) \/ H(Proceed(c), <<"Proceed", c>>)
          \/ H(CancelDone(c), <<"CancelDone", c>>) \/ H(CancelLock(c), <<"CancelLock", c>>)
@@ -30,7 +30,7 @@ HSpec == HInit /\ [][HNext]_hvars
 Quiet == /\ \A c \in Callers : cs[c].pc = "returned"
          /\ lp.pc \in {"read", "exited"}
 SchedJson == ToJson([cfg |-> [T |-> T, tries |-> Tries, bufcap |-> BufCap, xid |-> [i \in 1..Cardinality(Callers) |-> XidOf[i]],
-                              urgent |-> Urgent, timed |-> Timed],
+                              urgent |-> Urgent, timed |-> Timed, wfault |-> WFault],
                      steps |-> hist])
 \* printed once per complete behaviour (all calls returned)
 EmitWhenQuiet == Quiet => PrintT("CASE " \o SchedJson)
